@@ -138,6 +138,13 @@ fn textdiff_ops(alg: Algorithm, x: &[u32], y: &[u32], via: &str, fuel: i64) -> (
             "textdiff_timeout" => {
                 cfg.timeout(Duration::from_secs(86400));
             }
+            "textdiff_timeout_max" => {
+                // an unrepresentable deadline means "no deadline"
+                cfg.timeout(Duration::MAX);
+            }
+            "textdiff_timeout_huge" => {
+                cfg.timeout(Duration::from_secs(u64::MAX / 2));
+            }
             "real_expired" => {
                 cfg.deadline(Instant::now().checked_sub(Duration::from_millis(50)).unwrap_or_else(Instant::now));
             }
@@ -230,9 +237,18 @@ fn drive_plumbing(a: &Args, out: &mut Out, rng: &mut Rng) {
                 if k == 0 {
                     vias.push("real_expired");
                 }
+                if k == -1 {
+                    // compared with the never-expiring reference: no probe may be answered "expired"
+                    vias.push("textdiff_timeout_max");
+                    vias.push("textdiff_timeout_huge");
+                }
                 for via in vias {
                     let (ops, probes) = textdiff_ops(alg, &x, &y, via, k);
-                    let probed = if via == "real_expired" { r.probes > 0 } else { probes > 0 };
+                    let probed = if via == "real_expired" || via.starts_with("textdiff_timeout_") && via != "textdiff_timeout" {
+                        r.probes > 0
+                    } else {
+                        probes > 0
+                    };
                     let case = out.next_case();
                     out.emit(&json!({"ev":"same","case":case,"clause":"plumbing","via":via,"alg":alg_name(alg),
                         "old":seq_json(&x),"new":seq_json(&y),"fuel":k,
